@@ -301,4 +301,34 @@ def subColor : List Int → List Int → List Int
   | a :: as, b :: bs => (a - b) :: subColor as bs
   | _, _ => []
 
+/-! ## Channel accessors, `gray`, `Linear::zero`, gamma constants (color.rs:75-95, 394-476, 519-526) -/
+
+/-- A colour as the list of its channels (`Color<[Ch; N], Space>` is a transparent wrapper of the
+array). The accessors index it: `r`/`h` = `self.0[0]`, `g`/`s` = `self.0[1]`, `b`/`l` = `self.0[2]`,
+`a` = `self.0[3]` (color.rs:400-475). An index past the end is Rust's index panic. -/
+def channel {β : Type} (c : List β) (i : Nat) : Outcome β :=
+  match c[i]? with
+  | some v => .ok v
+  | none => .panic "index out of bounds"
+
+def idxR : Nat := 0
+def idxG : Nat := 1
+def idxB : Nat := 2
+def idxA : Nat := 3
+def idxH : Nat := 0
+def idxS : Nat := 1
+def idxL : Nat := 2
+
+/-- color.rs:75-77 `gray(lum) = rgb(lum, lum, lum)`. -/
+def grayC {β : Type} (lum : β) : List β := [lum, lum, lum]
+
+/-- color.rs:521-523 `Linear::zero` for float colours: `[0.0; DIM]`. -/
+def zeroColor {β : Type} [OfNat β 0] (dim : Nat) : List β := List.replicate dim 0
+
+/-- color.rs:91, 95: `GAMMA = 2.2`, `INV_GAMMA = 1.0 / GAMMA` (exact values; `to_linear` and `to_srgb`
+apply `powf(c, GAMMA)` resp. `powf(c, INV_GAMMA)` per channel — `powf` itself is a parameter of the
+model, see Drv/C16.lean). -/
+def gamma : Rat := 11 / 5
+def invGamma : Rat := 1 / gamma
+
 end Retro.Color
